@@ -4,6 +4,7 @@ package main
 // acknowledgement path is fail-stop (failstop.go) or matches a frozen idiom.
 
 import (
+	"os"
 	"fmt"
 	"go/token"
 	"sort"
@@ -86,11 +87,44 @@ func (cfg *EFConfig) exc(fn, callee string) *EFException {
 	for _, host := range helperHosts(fn) {
 		e := cfg.exc1(host, callee)
 		if e == nil || (found != nil && e != found) {
-			return nil
+			found = nil
+			break
 		}
 		found = e
 	}
-	return found
+	if found != nil {
+		return found
+	}
+	// fn may be a new function that absorbed a reference function which no longer exists
+	// (close() merged into dropAndRetry()): it inherits that function's exception when it is
+	// called only from functions that used to call the vanished one
+	hosts := helperHosts(fn)
+	if os.Getenv("LSV_DEBUG_EXC") != "" {
+		fmt.Fprintln(os.Stderr, "exc inherit?", fn, callee, hosts)
+	}
+	if len(hosts) == 0 || curProg == nil {
+		return nil
+	}
+	refCallers := loadAnchorCallers()
+	for i, e := range cfg.Exceptions {
+		if e.Callee != callee || e.Fn == "*" || curProg.Func(e.Fn) != nil || len(refCallers[e.Fn]) == 0 {
+			continue
+		}
+		was := map[string]bool{}
+		for _, c := range refCallers[e.Fn] {
+			was[c] = true
+		}
+		all := true
+		for _, h := range hosts {
+			if !was[h] {
+				all = false
+			}
+		}
+		if all {
+			return &cfg.Exceptions[i]
+		}
+	}
+	return nil
 }
 
 func (cfg *EFConfig) exc1(fn, callee string) *EFException {
